@@ -1298,9 +1298,10 @@ def op_x_c16(req):
                 break
         if _portable_dump(p) != before:
             fails.append(["to_native-mutates-portable", "co%d: portable object changed by to_native()" % i])
-        # hand-made native objects whose header integers no compiler derives from the names (accepted before 3.11)
-        if sys.version_info < (3, 11):
-            for field, delta in (("co_nlocals", 2), ("co_stacksize", 40), ("co_nlocals", -1)):
+        # hand-made native objects whose header integers no compiler derives from the names (co_nlocals: before 3.11)
+        if True:
+            for field, delta in ((("co_nlocals", 2), ("co_stacksize", 40), ("co_nlocals", -1)) if sys.version_info < (3, 11) else ()) + (
+                    ("co_firstlineno", -co.co_firstlineno), ("co_firstlineno", 70000)):
                 try:
                     odd = co.replace(**{field: max(0, getattr(co, field) + delta)})
                     if getattr(odd, field) == getattr(co, field):
